@@ -29,3 +29,22 @@ def _passes_neutralised(c, diag):
         return C09.check_case(C09.neutralised(c, diag)) is None
     except Exception:
         return False
+
+
+def C09_u_sign_in_repeat(case, params):
+    """a data-block U card with a repeat shortcut next to an entry of the same universe with the other sign:
+    the rewritten card loses / invents a minus sign (ShortcutNode._can_consume_node ignores is_negative)"""
+    import re
+    import props.C09 as C09
+    c = _core(case)
+    if c is None or case.get("kind") != "u-sign":
+        return False
+    has = False
+    for line in c["text"].split("\n"):
+        t = line.split()
+        if t and t[0].lower() == "u" and "=" not in line and any(re.match(r"^\d*r$", x, re.I) for x in t[1:]) \
+                and any(x.startswith("-") for x in t[1:]):
+            has = True
+    if not has:
+        return False
+    return _passes_neutralised(c, C09.model_diag(c))
